@@ -519,6 +519,7 @@ def family(name, quick=True):
         out.append(("resumable_shared_input", resumable_shared_input(), [("Resp1", None)]))
         # (new programs go to the END of this list: each program's schedule sample is drawn from one seeded stream in list order)
         out.append(("resumable_two_waiters", resumable_two_waiters(), [("Resp1", None), ("Resp", None)]))
+        out.append(("resumable_equal(2)", resumable_equal(2), []))
     elif name == "waits":
         out.append(("chain(5,1)", pipeline(retry_max=4, wait=["chain", [5, 1]], fail_until=99), []))
         out.append(("chain(1,4,2)", pipeline(retry_max=5, wait=["chain", [1, 4, 2]], fail_until=99), []))
@@ -567,6 +568,16 @@ def resumable_wait():
         "a": {"accepts": ["Start"], "nw": 1,
               "body": [G, {"op": "wait", "ty": "Resp", "wid": "w1", "timeout": None, "reqs": {"k": 1}, "wev": True},
                        {"op": "store_set", "key": "uid"}, G, {"op": "stop", "result": "done"}]},
+    }}
+
+
+def resumable_equal(n=2):
+    """like resumable, with n EQUAL-VALUED inputs for the one-worker step b (same uid, same payload): while one runs the
+    other waits in the queue -- two pieces of work that only their position tells apart."""
+    return {"timeout": None, "steps": {
+        "a": {"accepts": ["Start"], "nw": 1, "body": [G, {"op": "send", "ty": "A", "n": n, "same": True}, {"op": "none"}]},
+        "b": {"accepts": ["A"], "nw": 1, "body": [G, {"op": "store_set", "key": "uid"}, {"op": "ret", "ty": "B"}]},
+        "c": {"accepts": ["B"], "nw": 1, "body": [G, {"op": "collect", "expected": ["B"] * n}, {"op": "stop", "result": "done"}]},
     }}
 
 
